@@ -160,3 +160,90 @@ impl<T> Drop for RwLockWriteGuard<'_, T> {
         self.lock.release(true);
     }
 }
+
+/// Simulated `std::sync::Mutex`, same construction as [`RwLock`]: admission by the simulator
+/// (a thread that holds it across a scheduling point makes the others wait *in the simulation*
+/// instead of blocking an OS thread that holds the baton), data and poisoning by a real `std`
+/// mutex. The repository does not use a mutex today; a changed repository may.
+pub struct Mutex<T> {
+    gate: RwLock<()>,
+    inner: std::sync::Mutex<T>,
+}
+
+pub struct MutexGuard<'a, T> {
+    g: ManuallyDrop<std::sync::MutexGuard<'a, T>>,
+    lock: &'a Mutex<T>,
+}
+
+impl<T> Mutex<T> {
+    pub fn new(t: T) -> Self {
+        Mutex { gate: RwLock::new(()), inner: std::sync::Mutex::new(t) }
+    }
+    pub fn lock(&self) -> LockResult<MutexGuard<'_, T>> {
+        self.gate.acquire(true);
+        match self.inner.lock() {
+            Ok(g) => Ok(MutexGuard { g: ManuallyDrop::new(g), lock: self }),
+            Err(p) => Err(PoisonError::new(MutexGuard { g: ManuallyDrop::new(p.into_inner()), lock: self })),
+        }
+    }
+    pub fn try_lock(&self) -> std::sync::TryLockResult<MutexGuard<'_, T>> {
+        if self.gate.id != u32::MAX && !std::thread::panicking() {
+            let (sim, me) = ctx();
+            sim.sync_point(me);
+            let mut g = sim.lock();
+            let l = &mut g.locks[self.gate.id as usize];
+            if l.writer || l.readers > 0 {
+                return Err(std::sync::TryLockError::WouldBlock);
+            }
+            l.writer = true;
+            let id = self.gate.id;
+            g.ev(me, EvKind::LockAcq { lock: id, write: true });
+        }
+        match self.inner.lock() {
+            Ok(g) => Ok(MutexGuard { g: ManuallyDrop::new(g), lock: self }),
+            Err(p) => Err(std::sync::TryLockError::Poisoned(PoisonError::new(MutexGuard { g: ManuallyDrop::new(p.into_inner()), lock: self }))),
+        }
+    }
+    pub fn is_poisoned(&self) -> bool {
+        self.inner.is_poisoned()
+    }
+    pub fn into_inner(self) -> LockResult<T> {
+        self.inner.into_inner()
+    }
+    pub fn get_mut(&mut self) -> LockResult<&mut T> {
+        self.inner.get_mut()
+    }
+}
+
+impl<T: Default> Default for Mutex<T> {
+    fn default() -> Self {
+        Mutex::new(T::default())
+    }
+}
+impl<T> From<T> for Mutex<T> {
+    fn from(t: T) -> Self {
+        Mutex::new(t)
+    }
+}
+impl<T> fmt::Debug for Mutex<T> {
+    fn fmt(&self, f: &mut fmt::Formatter<'_>) -> fmt::Result {
+        write!(f, "simrt::Mutex#{}", self.gate.id)
+    }
+}
+impl<T> Deref for MutexGuard<'_, T> {
+    type Target = T;
+    fn deref(&self) -> &T {
+        &self.g
+    }
+}
+impl<T> DerefMut for MutexGuard<'_, T> {
+    fn deref_mut(&mut self) -> &mut T {
+        &mut self.g
+    }
+}
+impl<T> Drop for MutexGuard<'_, T> {
+    fn drop(&mut self) {
+        unsafe { ManuallyDrop::drop(&mut self.g) };
+        self.lock.gate.release(true);
+    }
+}
